@@ -143,7 +143,24 @@ func (s *sessionMetadatasState) Get(id string) (api.SessionMetadatas, error) {
 func (s *sessionMetadatasState) ByClientID(clientID string, mountPoint string) (api.SessionMetadatas, error) {
 	s.mu.Lock()
 	defer s.mu.Unlock()
-	return s.find(func(s api.SessionMetadatas) bool { return s.ClientID == clientID && s.MountPoint == mountPoint })
+	// Several records may be visible for one client id for a while (the announcement of an
+	// earlier session can arrive after a later session has been accepted, and before the
+	// removal of the earlier one does): the identifier resolves to the most recent of them,
+	// not to whichever the map iteration meets first.
+	var found *api.SessionMetadatas
+	for _, md := range s.sessions {
+		if !crdt.IsEntryAdded(&md) || md.ClientID != clientID || md.MountPoint != mountPoint {
+			continue
+		}
+		if found == nil || md.LastAdded > found.LastAdded || (md.LastAdded == found.LastAdded && md.SessionID > found.SessionID) {
+			md := md
+			found = &md
+		}
+	}
+	if found == nil {
+		return api.SessionMetadatas{}, ErrSessionMetadatasNotFound
+	}
+	return *found, nil
 }
 func (s *sessionMetadatasState) ByPeer(peer uint64) []api.SessionMetadatas {
 	s.mu.Lock()
